@@ -292,7 +292,7 @@ func runFrames(r *SeqRun) {
 	id := 0
 	nheads := 1
 	if thorough {
-		nheads = 4
+		nheads = 30
 	}
 	for hi := 0; hi < nheads; hi++ {
 		for cfg := 0; cfg < 4; cfg++ {
